@@ -157,7 +157,7 @@ func (e *Engine) query(extra *Term) (Verdict, Model) {
 			}
 		}
 		if qtrace {
-			fmt.Fprintf(os.Stderr, "QSITE conj=%d\n%s\n", len(conj), firstLines(e.stackString(), 3))
+			fmt.Fprintf(os.Stderr, "QSITE conj=%d\n%s\n", len(conj), firstLines(e.stackString(), qtraceDepth))
 		}
 		v, m := e.solver.CheckSet(conj, need)
 		res = cachedQuery{v, m}
@@ -180,3 +180,13 @@ func (e *Engine) query(extra *Term) (Verdict, Model) {
 	}
 	return Sat, full
 }
+
+// qtraceDepth: stack lines printed per query site under GOSYM_QTRACE (GOSYM_QTRACE=<n>, default 3)
+var qtraceDepth = func() int {
+	n := 3
+	fmt.Sscanf(os.Getenv("GOSYM_QTRACE"), "%d", &n)
+	if n < 3 {
+		n = 3
+	}
+	return n
+}()
